@@ -2,7 +2,7 @@
    Text is a list of Unicode code points; parse_state_fixed is the model of the repaired parser (fix: 382635e),
    parse_state_orig of the unrepaired one (finding F1). *)
 From Coq Require Import NArith List Bool.
-From Arimaa Require Import Types U64 Board Zobrist Engine Cells Notation Display Trace Monitors DiagramLemmas DiagramRoundtrip.
+From Arimaa Require Import Types U64 Board Zobrist Engine Cells Notation Display Trace Monitors DiagramLemmas DiagramRoundtrip Reach ParserWF.
 Import ListNotations.
 Open Scope N_scope.
 
@@ -18,6 +18,13 @@ Theorem C15_reparsed_state : forall s, board (reparsed s) = board s /\ side (rep
             hash (reparsed s) = z_from_piece_board (board (reparsed s)) (side (reparsed s)) 0.
 Proof. exact reparsed_fields. Qed.
 Print Assumptions C15_reparsed_state.
+
+(* whatever text the parser accepts - not only printed diagrams - the result is a start position: well-formed board
+   (kinds disjoint, words within 64 bits), step 0, nothing pending, from-scratch hash, history = [hash].  This discharges
+   the StartPosition premise of Reach / ReachRep / ReachG / ReachH / ReachL for every parsed state. *)
+Theorem C15_accepted_is_start : forall t s, parse_state_fixed t = Ok s -> StartPosition s.
+Proof. exact parse_start. Qed.
+Print Assumptions C15_accepted_is_start.
 
 (* its printed form is identical *)
 Theorem C15_reprint : forall s, print_state (reparsed s) = print_state s.
